@@ -47,7 +47,7 @@ func init() {
 }
 
 func init() {
-	reg(&propCfg{ID: "TT", Pkgs: []string{"tax"}, Lenient: []string{"tax", "num", "cal"}, Stages: []stage{{Name: "t", Harness: `^H_T_dbg`}}, Bounds: map[string][]string{}})
+	reg(&propCfg{ID: "TT", Pkgs: []string{"tax", "bill"}, Lenient: []string{"tax", "num", "cal", "bill", "cbc", "org", "head", "uuid"}, Stages: []stage{{Name: "t", Harness: `^H_T_dbg`}}, Bounds: map[string][]string{}})
 }
 
 func init() {
@@ -218,5 +218,24 @@ func init() {
 		},
 		Outside:     []string{"interleavings of goroutines, the race detector, result equivalence under contention, bulk request / response pairing: goroutines and channels are not encoded and a solver adds nothing to schedule enumeration; only the 'shared definitions are never written' sufficient condition is decided"},
 		Assumptions: []string{"a data race on shared definitions needs a write to them after initialisation"},
+	})
+}
+
+func init() {
+	reg(&propCfg{
+		ID:      "C16",
+		Pkgs:    []string{"bill"},
+		Lenient: []string{"bill", "tax", "cbc", "org", "num", "cal", "head", "uuid"},
+		Stages:  []stage{{Name: "correct-replicate", Harness: `^H_C16_`}},
+		Functions: []string{"bill.(*Invoice).Correct", "bill.(*Invoice).validatePrecedingData", "bill.(*Invoice).correctionDef", "bill.prepareCorrectionOptions", "bill.WithReason/WithStamps/WithSeries/WithIssueDate/WithExtension", "bill.Credit/Debit/Corrective",
+			"head.WithHead", "bill.(*Invoice).Replicate", "tax.(*CorrectionDefinition).Merge", "cbc.Key.In"},
+		Stubs: []string{"the final Invoice.Calculate of Correct: stub returning success (recalculation is the subject of C01-C04)", "cal.Today: an arbitrary fixed day", "regime correction definitions: native registry import (ES, MX, PL, GR and none)",
+			"schema.Object.Clone / Envelope.Correct / Envelop (JSON round trip, reflection): not encoded — the harness hands Correct a copy, which is what Clone provides"},
+		Bounds: map[string][]string{
+			"quick":    {"source invoice with symbolic one-byte code / series / identifier suffix, code present or not; regimes none, ES, MX, PL, GR; options: type none/credit/debit/corrective, reason, stamps none / required+extra / other provider (via header or explicit), series, issue date, extension"},
+			"thorough": {"same as quick"},
+		},
+		Outside:     []string{"fidelity of Object.Clone (JSON round trip) and envelope-level immutability of header and signatures", "CLI / bulk entry points' parsing", "addon-specific correction definitions"},
+		Assumptions: []string{"Clone yields an independent copy"},
 	})
 }
